@@ -19,7 +19,7 @@ CLAIMED = {
         technique="machine-checked proof in Coq (invariant by induction over all step sequences with oracle-chosen internal steps; refinement to a sorted map) + checked model-code correspondence",
     ),
     "C03": dict(
-        text="Coq theorem snapshot_stable: a live snapshot's view (and every get at it) is unchanged by any admissible run of writes, rotations, flushes, compactions and trivial moves that does not release it (multiset version for duplicate snapshots). Tied to the code by histories in which snapshots and iterators outlive writes, flushes and compactions, compared with frozen copies of the specification map.",
+        text="Coq theorems: at any sequence bound get and iteration agree on a well-formed state (a seek lands exactly on the key iff get finds it; a full scan yields exactly the contents at that bound); an iterator at a live snapshot yields identical observations for EVERY cursor script before and after any admissible run of writes, rotations, flushes, compactions and trivial moves that does not release the snapshot (C03_iterator_snapshot_stable, with the necessity witness for the not-released hypothesis); snapshot_stable: a live snapshot's view (and every get at it) is unchanged by any admissible run of writes, rotations, flushes, compactions and trivial moves that does not release it (multiset version for duplicate snapshots). Tied to the code by histories in which snapshots and iterators outlive writes, flushes and compactions, compared with frozen copies of the specification map.",
         note="Trusted as for C01. Iterators without an explicit snapshot pin a version; the deletion-safety part for pinned versions is exercised by the pause-point schedules (C05) and the directory checks (C11), not proved.",
         design="6 / C03",
         technique="machine-checked proof in Coq (corollary of the LSM invariant and step invisibility) + checked model-code correspondence",
